@@ -17,9 +17,9 @@ CONSTANT NK            \* number of abstract keys
 
 Keys     == 1..NK
 Absent   == "-"
-AllContents == {"A", "B", "C", "E", "G", "H", "M"}
-ContentSeq  == <<"A", "B", "C", "E", "G", "H", "M">>
-SizeOf   == [A |-> 11, B |-> 1, C |-> 8192, E |-> 0, G |-> 70000, H |-> 300000, M |-> 1200000]
+AllContents == {"A", "B", "C", "E", "G", "H", "M", "X"}
+ContentSeq  == <<"A", "B", "C", "E", "G", "H", "M", "X">>
+SizeOf   == [A |-> 11, B |-> 1, C |-> 8192, E |-> 0, G |-> 70000, H |-> 300000, M |-> 1200000, X |-> 4194304]
 NoOp     == [op |-> "none"]
 DbVersion == 4
 
